@@ -44,7 +44,13 @@ def main():
         det = {"check": "./check %s --tier quick" % prop,
                "patch_used": os.path.basename(patch) + (" (original patch.diff re-based onto the repaired tree)" if adapted else "")}
         if "PATCH DOES NOT APPLY" in out:
-            det["result"] = "patch does not apply to the current (repaired) tree"
+            prev = meta.get("detected_by")
+            if isinstance(prev, dict) and prev.get("result") in ("detected", "equivalent on the repaired tree"):
+                # the tree was repaired at these lines after the change was scored: the last result stands, marked as such
+                det = dict(prev)
+                det["stale"] = "patch no longer applies to the current tree (a later fix: commit touched these lines); result of the last scoring kept"
+            else:
+                det["result"] = "patch does not apply to the current (repaired) tree"
         else:
             m = re.search(r"(\d+) disagreement\(s\) in total, by clause: (\{.*\})", out)
             nviol = len(re.findall(r"^VIOLATION property=", out, re.M))
